@@ -248,6 +248,14 @@ class Episode(object):
                 self.fired['die_noop'] += 1
                 return
             pid = live[op.get('j', 0) % len(live)]
+            if 'child' in op:
+                # a child process of that worker instead
+                kids = sorted(c for c in k.procs[pid].children
+                              if k.procs[c].alive)
+                if not kids:
+                    self.fired['die_noop'] += 1
+                    return
+                pid = kids[op['child'] % len(kids)]
             how = op.get('how', 'exit')
             inflight = self.busy()
             if how == 'exit':
